@@ -86,7 +86,7 @@ Record Inv (s : state) : Prop := mkInv {
   i_wok : forall w, In w (pend s) -> wound_ok w;
   i_ord : ordered (s_fs s) (pend s);
   i_queued : forall f, In f (s_queued s) -> exists data, In (f, data) (b_files b) /\ fstatus s f data;
-  i_wq : forall f data, In (f, data) (s_wq s) -> In (f, data) (b_files b) /\ anc_ok (s_fs s) f;
+  i_wq : forall f data, In (f, data) (s_wq s) -> In (f, data) (b_files b) /\ anc_ok (s_fs s) f /\ In f (s_queued s);
   i_writing : forall q data, s_w s = WWriting q data ->
       exists f, q = T ++ f /\ In (f, data) (b_files b) /\ In f (s_queued s) /\
                 exists d0, node_at (s_fs s) q = Some (File d0);
@@ -226,27 +226,19 @@ Proof.
     subst. right. right. exact Hh.
 Qed.
 
-(** a filesystem change that keeps every listed entry other than [e], keeps good directories
-    good, and keeps [e] itself good unless it is a file in the healer's set *)
-Lemma claims_fs : forall e t t' wd P Q dd dl df,
+(** transfer of the claims to a changed filesystem *)
+Lemma claims_tr : forall t t' wd P Q dd dl df,
   incl dd (b_dirs b) -> incl dl (b_links b) -> incl df (b_files b) ->
-  stable e t t' ->
-  (gdir t e -> gdir t' e) ->
-  (forall dest, glink t e dest -> glink t' e dest) ->
-  (forall data, In (e, data) (b_files b) -> gfile t e data -> gfile t' e data \/ In e Q) ->
+  (forall d, In d (b_dirs b) -> gdir t d -> gdir t' d) ->
+  (forall l dest, In (l, dest) (b_links b) -> glink t l dest -> glink t' l dest) ->
+  (forall f data, In (f, data) (b_files b) -> gfile t f data -> gfile t' f data \/ In f Q) ->
   claims t wd P Q dd dl df -> claims t' wd P Q dd dl df.
 Proof.
-  intros e t t' wd P Q dd dl df Sd Sl Sf [_ Hs] Hd Hl Hf [H1 [H2 H3]]. repeat split.
-  - intros d Hin. destruct (H1 d Hin) as [G | A]; [left | right; exact A].
-    destruct (path_eq_dec d e) as [-> | Hne]; [apply Hd; exact G|].
-    unfold HealLemmas.gdir. rewrite Hs; [exact G | apply in_all_dir, Sd, Hin | exact Hne].
-  - intros l dest Hin. destruct (H2 l dest Hin) as [G | A]; [left | right; exact A].
-    destruct (path_eq_dec l e) as [-> | Hne]; [apply Hl; exact G|].
-    unfold HealLemmas.glink. rewrite Hs; [exact G | eapply in_all_link, Sl, Hin | exact Hne].
+  intros t t' wd P Q dd dl df Sd Sl Sf Hd Hl Hf [H1 [H2 H3]]. repeat split.
+  - intros d Hin. destruct (H1 d Hin) as [G | A]; [left; apply Hd; [apply Sd, Hin | exact G] | right; exact A].
+  - intros l dest Hin. destruct (H2 l dest Hin) as [G | A]; [left; apply Hl; [apply Sl, Hin | exact G] | right; exact A].
   - intros f data Hin. destruct (H3 f data Hin) as [G | A]; [| right; exact A].
-    destruct (path_eq_dec f e) as [-> | Hne].
-    + destruct (Hf data (Sf _ Hin) G) as [G' | Q']; [left; exact G' | right; right; exact Q'].
-    + left. unfold HealLemmas.gfile. rewrite Hs; [exact G | eapply in_all_file, Sf, Hin | exact Hne].
+    destruct (Hf f data (Sf _ Hin) G) as [G' | Q']; [left; exact G' | right; right; exact Q'].
 Qed.
 
 Lemma ordered_pop : forall t w P, handled t [] w \/ (forall d, w <> WDir d) -> ordered t (w :: P) -> ordered t P.
@@ -611,6 +603,345 @@ Proof.
         -- destruct C4 as [X _]. apply C1 in X. congruence.
         -- destruct C4 as [_ [X _]]. apply C1 in X. congruence.
     + discriminate.
+Qed.
+
+(** ---------- healer steps ---------- *)
+
+(** the healer handles the head wound, changing the filesystem from [s_fs s] to [t'] without
+    touching any listed file *)
+Lemma inv_heal_step : forall s w ch t',
+  Inv s -> s_h s = HRun -> s_chan s = w :: ch ->
+  (base_ok (s_fs s) -> base_ok t') ->
+  (forall d, In d (b_dirs b) -> gdir (s_fs s) d -> gdir t' d) ->
+  (forall l dest, In (l, dest) (b_links b) -> glink (s_fs s) l dest -> glink t' l dest) ->
+  (forall f data, In (f, data) (b_files b) -> node_at t' (T ++ f) = node_at (s_fs s) (T ++ f)) ->
+  handled t' (s_queued s) w ->
+  Inv (set_fs_chan_h s t' ch HRun).
+Proof.
+  intros s w ch t' HI Hh Hch Hbase Hd Hl Hf Hhd.
+  destruct HI as [[dd [dl [df [Hpr [Hcl Hwd]]]]] Hb Hok Hord Hq Hwq Hwr Hc].
+  destruct (progress_sub _ _ _ _ Hpr) as [Sd [Sl Sf]].
+  assert (EP : pend s = w :: (ch ++ v_pend (s_v s))) by (unfold pend; rewrite Hch; reflexivity).
+  rewrite EP in *.
+  constructor; cbn; unfold pend; cbn.
+  - exists dd, dl, df. split; [exact Hpr|]. split; [|exact Hwd].
+    apply claims_pop with (w := w); [exact Hhd|].
+    eapply claims_tr; try eassumption.
+    intros f data Hin G. left. unfold HealLemmas.gfile. rewrite (Hf f data Hin). exact G.
+  - apply Hbase. exact Hb.
+  - intros w' Hin. apply Hok. right. exact Hin.
+  - apply ordered_pop with (w := w).
+    + destruct w; [left; exact Hhd | right; intros d X; discriminate | right; intros d X; discriminate | right; intros d X; discriminate].
+    + eapply ordered_mono; [exact Hok | exact Hd | exact Hord].
+  - intros f Hin. destruct (Hq f Hin) as [data [Hfb Hst]]. exists data. split; [exact Hfb|].
+    unfold fstatus in *. cbn. unfold HealLemmas.gfile. rewrite (Hf f data Hfb). exact Hst.
+  - intros f data Hin. destruct (Hwq f data Hin) as [Hfb [Ha Hfq]]. split; [exact Hfb|]. split; [|exact Hfq].
+    eapply anc_ok_mono; [eapply in_all_file; exact Hfb | exact Hd | exact Ha].
+  - intros q data E. destruct (Hwr q data E) as [f [Eq [Hfb [Hfq Hn]]]]. exists f. repeat split; try assumption.
+    subst q. rewrite (Hf f data Hfb). exact Hn.
+  - destruct Hc as [[C1 C2] [C3 [C4 C5]]]. unfold control. cbn. rewrite Hh in C4. repeat split; assumption.
+Qed.
+
+Lemma head_anc : forall s w ch p, Inv s -> s_chan s = w :: ch -> wpath w = Some p -> anc_ok (s_fs s) p.
+Proof.
+  intros s w ch p HI Hch Hw a Ha Hn.
+  destruct (i_ord s HI [] w (ch ++ v_pend (s_v s)) p) with (a := a) as [G | []]; try assumption.
+  unfold pend. rewrite Hch. reflexivity.
+Qed.
+
+Lemma head_ok : forall s w ch, Inv s -> s_chan s = w :: ch -> wound_ok w.
+Proof.
+  intros s w ch HI Hch. apply (i_wok s HI). unfold pend. rewrite Hch. left. reflexivity.
+Qed.
+
+Lemma dir_not_link : forall d dest, In d (b_dirs b) -> ~ In (d, dest) (b_links b).
+Proof. intros d dest Hd Hl. eapply (wf_lf_not_dir b wf); [eapply in_lf_link; exact Hl | exact Hd]. Qed.
+
+Lemma dir_not_file : forall d data, In d (b_dirs b) -> ~ In (d, data) (b_files b).
+Proof. intros d data Hd Hl. eapply (wf_lf_not_dir b wf); [eapply in_lf_file; exact Hl | exact Hd]. Qed.
+
+Lemma hstep_inv : forall s s', INV s -> hstep s = Some s' -> INV s'.
+Proof.
+  intros s s' [H0 | HI] Hs.
+  - destruct H0 as [Hi [Hv [Hch [Hcl [Hh [Hq [Hwq [Hwc Hw]]]]]]]].
+    unfold Healer.hstep in Hs. rewrite Hh, Hch, Hcl in Hs. discriminate.
+  - right. unfold Healer.hstep in Hs.
+    destruct (s_h s) eqn:Hh.
+    + (* HRun *)
+      destruct (s_chan s) as [|w ch] eqn:Hch.
+      * (* channel empty: closed => close(fileIndices) *)
+        destruct (s_closed s) eqn:Hcl; [|discriminate]. inversion Hs; subst s'. clear Hs.
+        destruct HI as [Hpr Hb Hok Hord Hq Hwq Hwr Hc].
+        assert (EP : pend s = v_pend (s_v s)) by (unfold pend; rewrite Hch; reflexivity).
+        constructor; cbn; unfold pend; cbn; try rewrite <- EP; try assumption.
+        destruct Hc as [[C1 C2] [C3 [C4 C5]]]. unfold control. cbn. rewrite Hcl in *. repeat split; try assumption; try reflexivity.
+        destruct (s_w s); try exact I. destruct C5 as [X [Y Z]]. rewrite Hh in C4. congruence.
+      * pose proof (head_ok s w ch HI Hch) as Hwok.
+        destruct w as [d | l dest | f data | f].
+        -- (* DIR wound *)
+           cbn in Hwok.
+           assert (Hne : d <> []) by (apply (wf_nonempty b wf), in_all_dir, Hwok).
+           destruct (heal_dir_spec T (s_fs s) d (i_base s HI) (head_anc s _ ch d HI Hch eq_refl) Hne) as [t' [E [G Hf]]].
+           rewrite E in Hs. inversion Hs; subst s'. clear Hs.
+           pose proof (stable_frame1 d _ _ Hne Hf) as Hst.
+           apply (inv_heal_step s (WDir d) ch t' HI Hh Hch).
+           ++ apply Hst.
+           ++ intros d' Hd' G'. destruct (path_eq_dec d' d) as [-> | Hn]; [exact G | eapply stable_gdir; eassumption].
+           ++ intros l dest Hl G'. unfold HealLemmas.glink. rewrite (proj2 Hst); [exact G' | eapply in_all_link; exact Hl |].
+              intro X. subst l. eapply dir_not_link; eassumption.
+           ++ intros f data Hfb. apply (proj2 Hst); [eapply in_all_file; exact Hfb|].
+              intro X. subst f. eapply dir_not_file; eassumption.
+           ++ exact G.
+        -- (* SYMLINK wound *)
+           cbn in Hwok.
+           assert (Hne : l <> []) by (eapply (wf_nonempty b wf), in_all_link, Hwok).
+           destruct (heal_link_spec T (s_fs s) l dest (i_base s HI) (head_anc s _ ch l HI Hch eq_refl) Hne) as [t' [E [G Hf]]].
+           rewrite E in Hs. inversion Hs; subst s'. clear Hs.
+           pose proof (stable_frame l _ _ (in_lf_link b l dest Hwok) Hf) as Hst.
+           apply (inv_heal_step s (WLink l dest) ch t' HI Hh Hch).
+           ++ apply Hst.
+           ++ intros d' Hd' G'. eapply stable_gdir; try eassumption.
+              intro X. subst d'. eapply dir_not_link; eassumption.
+           ++ intros l' dest' Hl G'. destruct (path_eq_dec l' l) as [-> | Hn].
+              ** rewrite (links_functional b wf l dest' dest Hl Hwok). exact G.
+              ** unfold HealLemmas.glink. rewrite (proj2 Hst); [exact G' | eapply in_all_link; exact Hl | exact Hn].
+           ++ intros f data Hfb. apply (proj2 Hst); [eapply in_all_file; exact Hfb|].
+              intro X. subst f. eapply (link_not_file b wf); try eassumption. reflexivity.
+           ++ exact G.
+        -- (* FILE wound *)
+           cbn in Hwok.
+           destruct (existsb (path_eqb f) (s_queued s)) eqn:Hq.
+           ++ (* already queued *)
+              inversion Hs; subst s'. clear Hs.
+              apply (inv_heal_step s (WFile f data) ch (s_fs s) HI Hh Hch); auto.
+              cbn. apply existsb_path_In. exact Hq.
+           ++ assert (Hw : forall e, s_w s <> WExit (Err e)).
+              { intros e X. destruct (i_ctl s HI) as [_ [_ [_ C5]]]. rewrite X in C5. destruct C5 as [C5 _]. discriminate. }
+              assert (Hs' : s' = mkS (s_fs s) (s_v s) ch (s_closed s) HRun (f :: s_queued s)
+                                     (s_wq s ++ [(f, data)]) (s_wq_closed s) (s_w s)).
+              { destruct (s_w s) as [| |[|e]] eqn:Ew; try (inversion Hs; reflexivity). exfalso. eapply Hw. reflexivity. }
+              subst s'. clear Hs.
+              pose proof (head_anc s _ ch f HI Hch eq_refl) as Hanc.
+              destruct HI as [[dd [dl [df [Hpr [Hcl Hwd]]]]] Hb Hok Hord Hqd Hwq Hwr Hc].
+              assert (EP : pend s = WFile f data :: (ch ++ v_pend (s_v s))) by (unfold pend; rewrite Hch; reflexivity).
+              rewrite EP in *.
+              constructor; cbn; unfold pend; cbn.
+              ** exists dd, dl, df. split; [exact Hpr|]. split; [|exact Hwd].
+                 apply claims_pop with (w := WFile f data); [cbn; left; reflexivity|].
+                 eapply claims_more; [apply incl_refl | apply incl_refl | | exact Hcl]. apply incl_tl, incl_refl.
+              ** exact Hb.
+              ** intros w' Hin. apply Hok. right. exact Hin.
+              ** apply ordered_pop with (w := WFile f data); [right; intros d X; discriminate | exact Hord].
+              ** intros f' [<- | Hin].
+                 --- exists data. split; [exact Hwok|]. left. cbn. apply in_or_app. right. left. reflexivity.
+                 --- destruct (Hqd f' Hin) as [data' [Hfb Hst]]. exists data'. split; [exact Hfb|].
+                     destruct Hst as [A | [B | C]]; [left; cbn; apply in_or_app; left; exact A | right; left; exact B | right; right; exact C].
+              ** intros f' data' Hin. apply in_app_or in Hin as [Hin | [X | []]].
+                 --- destruct (Hwq f' data' Hin) as [A [B C]]. repeat split; try assumption. right. exact C.
+                 --- inversion X; subst. repeat split; try assumption. left. reflexivity.
+              ** intros q data' E. destruct (Hwr q data' E) as [f' [Eq [Hfb [Hfq Hn]]]]. exists f'. repeat split; try assumption.
+                 right. exact Hfq.
+              ** destruct Hc as [[C1 C2] [C3 [C4 C5]]]. unfold control. cbn. rewrite Hh in C4. repeat split; try assumption.
+                 destruct (s_w s); try exact I. destruct C5 as [X [Y Z]]. congruence.
+        -- (* CLOSED_FILE *)
+           inversion Hs; subst s'. clear Hs.
+           apply (inv_heal_step s (WClosed f) ch (s_fs s) HI Hh Hch); auto; exact I.
+    + (* HWait *)
+      destruct (s_w s) as [| |r] eqn:Hw; try discriminate. inversion Hs; subst s'. clear Hs.
+      destruct HI as [Hpr Hb Hok Hord Hq Hwq Hwr Hc].
+      constructor; cbn; unfold pend; cbn; try assumption.
+      destruct Hc as [[C1 C2] [C3 [C4 C5]]]. unfold control. cbn. rewrite Hh in C4. rewrite Hw in *.
+      destruct C4 as [X [Y Z]]. destruct C5 as [U [V W]]. subst r. repeat split; assumption.
+    + discriminate.
+Qed.
+
+(** ---------- heal-worker steps ---------- *)
+
+Lemma wstep_inv : forall s s', INV s -> wstep s = Some s' -> INV s'.
+Proof.
+  intros s s' [H0 | HI] Hs.
+  - destruct H0 as [Hi [Hv [Hch [Hcl [Hh [Hq [Hwq [Hwc Hw]]]]]]]].
+    unfold Healer.wstep in Hs. rewrite Hw, Hwq, Hwc in Hs. discriminate.
+  - right. unfold Healer.wstep in Hs.
+    destruct (s_w s) as [|q data|r] eqn:Hw.
+    + destruct (s_wq s) as [|[f data] wq'] eqn:Hwq.
+      * (* fileIndices closed and empty: the worker returns *)
+        destruct (s_wq_closed s) eqn:Hwc; [|discriminate]. inversion Hs; subst s'. clear Hs.
+        destruct HI as [Hpr Hb Hok Hord Hq Hwqi Hwr Hc].
+        constructor; cbn; unfold pend; cbn; try assumption.
+        -- intros f Hin. destruct (Hq f Hin) as [data [Hfb Hst]]. exists data. split; [exact Hfb|].
+           unfold fstatus in *. cbn. rewrite Hwq, Hw in Hst. destruct Hst as [[] | [[X _] | C]]; [discriminate | right; right; exact C].
+        -- intros f data []. 
+        -- intros q data X. discriminate.
+        -- destruct Hc as [[C1 C2] [C3 [C4 C5]]]. unfold control. cbn. repeat split; try assumption.
+           destruct (s_h s); [congruence | exact C4 |]. destruct C4 as [_ [_ [_ [_ X]]]]. congruence.
+      * (* GetWriter *)
+        destruct (i_wq s HI f data) as [Hfb [Hanc Hfq]]; [rewrite Hwq; left; reflexivity|].
+        assert (Hne : f <> []) by (eapply (wf_nonempty b wf), in_all_file, Hfb).
+        destruct (get_writer_spec T (s_fs s) f (i_base s HI) Hanc Hne) as [t' [E [Hn Hf]]].
+        rewrite E in Hs. inversion Hs; subst s'. clear Hs.
+        pose proof (stable_frame f _ _ (in_lf_file b f data Hfb) Hf) as Hst.
+        assert (Hd : forall d, In d (b_dirs b) -> gdir (s_fs s) d -> gdir t' d).
+        { intros d Hd G. eapply stable_gdir; try eassumption. intro X. subst d. eapply dir_not_file; eassumption. }
+        destruct HI as [[dd [dl [df [Hpr [Hcl Hwd]]]]] Hb Hok Hord Hq Hwqi Hwr Hc].
+        destruct (progress_sub _ _ _ _ Hpr) as [Sd [Sl Sf]].
+        constructor; cbn; unfold pend; cbn.
+        -- exists dd, dl, df. split; [exact Hpr|]. split; [|exact Hwd].
+           eapply claims_tr; try eassumption.
+           ++ intros l dest Hl G. unfold HealLemmas.glink. rewrite (proj2 Hst); [exact G | eapply in_all_link; exact Hl |].
+              intro X. subst l. eapply (link_not_file b wf); try eassumption. reflexivity.
+           ++ intros f' data' Hfb' G. destruct (path_eq_dec f' f) as [-> | Hn'']; [right; exact Hfq | left].
+              unfold HealLemmas.gfile. rewrite (proj2 Hst); [exact G | eapply in_all_file; exact Hfb' | exact Hn''].
+        -- apply Hst. exact Hb.
+        -- exact Hok.
+        -- eapply ordered_mono; [exact Hok | exact Hd | exact Hord].
+        -- intros f' Hin. destruct (Hq f' Hin) as [data' [Hfb' Hs']]. exists data'. split; [exact Hfb'|].
+           unfold fstatus. cbn. destruct (path_eq_dec f' f) as [-> | Hn''].
+           ++ right. left. rewrite (files_functional b wf f data' data Hfb' Hfb). split; [reflexivity | exists []; exact Hn].
+           ++ unfold fstatus in Hs'. rewrite Hwq, Hw in Hs'. destruct Hs' as [[X | A] | [[X _] | C]].
+              ** inversion X. congruence.
+              ** left. exact A.
+              ** discriminate.
+              ** right. right. unfold HealLemmas.gfile. rewrite (proj2 Hst); [exact C | eapply in_all_file; exact Hfb' | exact Hn''].
+        -- intros f' data' Hin. destruct (Hwqi f' data') as [A [B C]]; [rewrite Hwq; right; exact Hin|].
+           repeat split; try assumption. eapply anc_ok_mono; [eapply in_all_file; exact A | exact Hd | exact B].
+        -- intros q data' X. inversion X; subst. exists f. repeat split; try assumption. exists []. exact Hn.
+        -- destruct Hc as [[C1 C2] [C3 [C4 C5]]]. unfold control. cbn. repeat split; try assumption.
+           destruct (s_h s); try assumption. destruct C4 as [_ [_ [_ [_ X]]]]. congruence.
+    + (* ctxcopy.Do: the content is written *)
+      inversion Hs; subst s'. clear Hs.
+      destruct (i_writing s HI q data Hw) as [f [Eq [Hfb [Hfq [d0 Hn]]]]]. subst q.
+      assert (Hne : f <> []) by (eapply (wf_nonempty b wf), in_all_file, Hfb).
+      destruct (write_fd_spec (s_fs s) (T ++ f) data d0 (app_nonempty T f Hne) Hn) as [Hn' Hf].
+      set (t' := write_fd (s_fs s) (T ++ f) data) in *.
+      pose proof (stable_frame f _ _ (in_lf_file b f data Hfb) Hf) as Hst.
+      assert (Hd : forall d, In d (b_dirs b) -> gdir (s_fs s) d -> gdir t' d).
+      { intros d Hd G. eapply stable_gdir; try eassumption. intro X. subst d. eapply dir_not_file; eassumption. }
+      destruct HI as [[dd [dl [df [Hpr [Hcl Hwd]]]]] Hb Hok Hord Hq Hwqi Hwr Hc].
+      destruct (progress_sub _ _ _ _ Hpr) as [Sd [Sl Sf]].
+      constructor; cbn; unfold pend; cbn.
+      * exists dd, dl, df. split; [exact Hpr|]. split; [|exact Hwd].
+        eapply claims_tr; try eassumption.
+        -- intros l dest Hl G. unfold HealLemmas.glink. rewrite (proj2 Hst); [exact G | eapply in_all_link; exact Hl |].
+           intro X. subst l. eapply (link_not_file b wf); try eassumption. reflexivity.
+        -- intros f' data' Hfb' G. destruct (path_eq_dec f' f) as [-> | Hn'']; [right; exact Hfq | left].
+           unfold HealLemmas.gfile. rewrite (proj2 Hst); [exact G | eapply in_all_file; exact Hfb' | exact Hn''].
+      * apply Hst. exact Hb.
+      * exact Hok.
+      * eapply ordered_mono; [exact Hok | exact Hd | exact Hord].
+      * intros f' Hin. destruct (Hq f' Hin) as [data' [Hfb' Hs']]. exists data'. split; [exact Hfb'|].
+        unfold fstatus. cbn. destruct (path_eq_dec f' f) as [-> | Hn''].
+        -- right. right. rewrite (files_functional b wf f data' data Hfb' Hfb). exact Hn'.
+        -- unfold fstatus in Hs'. rewrite Hw in Hs'. destruct Hs' as [A | [[X _] | C]].
+           ++ left. exact A.
+           ++ inversion X. apply app_inj_T in H0. congruence.
+           ++ right. right. unfold HealLemmas.gfile. rewrite (proj2 Hst); [exact C | eapply in_all_file; exact Hfb' | exact Hn''].
+      * intros f' data' Hin. destruct (Hwqi f' data' Hin) as [A [B C]].
+        repeat split; try assumption. eapply anc_ok_mono; [eapply in_all_file; exact A | exact Hd | exact B].
+      * intros q data' X. discriminate.
+      * destruct Hc as [[C1 C2] [C3 [C4 C5]]]. unfold control. cbn. repeat split; try assumption.
+        destruct (s_h s); try assumption. destruct C4 as [_ [_ [_ [_ X]]]]. congruence.
+    + discriminate.
+Qed.
+
+Lemma step_inv : forall s i s', INV s -> step s i = Some s' -> INV s'.
+Proof.
+  intros s [] s' HI Hs; cbn in Hs; [eapply vstep_inv | eapply hstep_inv | eapply wstep_inv]; eassumption.
+Qed.
+
+(** ---------- what the invariant gives when [Validate] has returned ---------- *)
+
+Lemma inv_not_fail : forall s, INV s -> forall e, v_phase (s_v s) <> VFail e.
+Proof.
+  intros s [H0 | HI] e X.
+  - destruct H0 as [_ [Hv _]]. rewrite Hv in X. discriminate.
+  - destruct (i_prog s HI) as [dd [dl [df [Hpr _]]]]. rewrite X in Hpr. exact Hpr.
+Qed.
+
+Lemma terminal_restored : forall s, INV s -> terminal s = true ->
+  result s = Some (Ok tt) /\ restored b T (s_fs s).
+Proof.
+  intros s HI Ht. pose proof (inv_not_fail s HI) as Hnf. destruct HI as [H0 | HI].
+  { destruct H0 as [_ [Hv _]]. unfold terminal in Ht. rewrite Hv in Ht. discriminate. }
+  unfold terminal in Ht. unfold result.
+  destruct (v_phase (s_v s)) eqn:Hph; try discriminate; [| exfalso; eapply Hnf; reflexivity].
+  destruct (s_h s) as [| |r] eqn:Hh; try discriminate.
+  destruct HI as [[dd [dl [df [Hpr [Hcl Hwd]]]]] Hb Hok Hord Hq Hwq Hwr Hc].
+  destruct Hc as [[C1 C2] [C3 [C4 C5]]]. rewrite Hh in C4. destruct C4 as [-> [Hcld [Hch [Hwc Hw]]]].
+  rewrite Hw in C5. destruct C5 as [_ [Hwqe _]].
+  split; [reflexivity|].
+  assert (EP : pend s = []) by (unfold pend; rewrite Hch, (C3 Hph); reflexivity).
+  rewrite EP in Hcl. rewrite Hph in Hpr. cbn in Hpr. destruct Hpr as [-> [-> ->]].
+  destruct Hcl as [H1 [H2 H3]].
+  assert (Gd : forall d, In d (b_dirs b) -> gdir (s_fs s) d).
+  { intros d Hd. destruct (H1 d Hd) as [G | [_ []]]. exact G. }
+  assert (Hlit : forall p, In p (all_paths b) -> lit (s_fs s) (T ++ p)).
+  { intros p Hp. apply anc_lit; [exact Hb|]. intros a Ha Hn. apply Gd. eapply wf_anc; eassumption. }
+  repeat split.
+  - intros d Hd. rewrite lstat_lit by (apply Hlit, in_all_dir, Hd). rewrite (Gd d Hd). reflexivity.
+  - intros l dest Hl. rewrite readlink_lit by (eapply Hlit, in_all_link, Hl).
+    destruct (H2 l dest Hl) as [G | []]. rewrite G. reflexivity.
+  - rewrite lstat_lit by (eapply Hlit, in_all_file, H).
+    assert (G : gfile (s_fs s) f data).
+    { destruct (H3 f data H) as [G | [[] | Hfq]]; [exact G|].
+      destruct (Hq f Hfq) as [data' [Hfb Hst]]. rewrite (files_functional b wf f data data' H Hfb).
+      destruct Hst as [A | [[X _] | C]]; [rewrite Hwqe in A; destruct A | congruence | exact C]. }
+    rewrite G. reflexivity.
+  - assert (G : gfile (s_fs s) f data).
+    { destruct (H3 f data H) as [G | [[] | Hfq]]; [exact G|].
+      destruct (Hq f Hfq) as [data' [Hfb Hst]]. rewrite (files_functional b wf f data data' H Hfb).
+      destruct Hst as [A | [[X _] | C]]; [rewrite Hwqe in A; destruct A | congruence | exact C]. }
+    rewrite read_file_lit; [rewrite G; reflexivity | eapply Hlit, in_all_file, H | intros d0; rewrite G; discriminate].
+Qed.
+
+(** ---------- no deadlock ---------- *)
+
+Lemma hstep_run_some : forall s w ch, s_h s = HRun -> s_chan s = w :: ch -> hstep s <> None.
+Proof.
+  intros s w ch Hh Hch. unfold Healer.hstep. rewrite Hh, Hch.
+  destruct w as [d | l dest | f data | f].
+  - destruct (heal_dir T (s_fs s) d); discriminate.
+  - destruct (heal_link T (s_fs s) l dest); discriminate.
+  - destruct (existsb (path_eqb f) (s_queued s)); [discriminate|].
+    destruct (s_w s) as [| |[|]]; discriminate.
+  - discriminate.
+Qed.
+
+Lemma no_deadlock : forall s, INV s -> (forall i, step s i = None) -> terminal s = true.
+Proof.
+  intros s HI Hn. pose proof (Hn TV) as Hv. pose proof (Hn TH) as Hh. pose proof (Hn TW) as Hw. cbn in Hv, Hh, Hw.
+  destruct HI as [H0 | HI].
+  { destruct H0 as [_ [Hvs _]]. unfold Healer.vstep in Hv. rewrite Hvs in Hv. cbn in Hv. destruct (mkdir_all (s_fs s) T); discriminate. }
+  destruct (i_ctl s HI) as [[C1 C2] [C3 [C4 C5]]].
+  unfold Healer.vstep in Hv.
+  destruct (v_pend (s_v s)) as [|w ws] eqn:Hp.
+  - destruct (v_phase (s_v s)) as [|r|r|r| | |e] eqn:Hph.
+    + destruct (mkdir_all (s_fs s) T); discriminate.
+    + destruct r; discriminate.
+    + destruct r as [|[? ?] ?]; discriminate.
+    + destruct r as [|[? ?] ?]; discriminate.
+    + discriminate.
+    + (* VDone *)
+      pose proof (C2 eq_refl) as Hcl.
+      unfold terminal. rewrite Hph.
+      destruct (s_h s) eqn:Ehh; [| | reflexivity]; exfalso.
+      * unfold Healer.hstep in Hh. rewrite Ehh, Hcl in Hh.
+        destruct (s_chan s) as [|w ch] eqn:Hch; [discriminate|].
+        eapply (hstep_run_some s w ch); try eassumption. unfold Healer.hstep. rewrite Ehh, Hch, ?Hcl. exact Hh.
+      * unfold Healer.hstep in Hh. rewrite Ehh in Hh. destruct C4 as [_ [_ Hwc]].
+        unfold Healer.wstep in Hw.
+        destruct (s_w s) as [|q data|r] eqn:Ew; [| discriminate | discriminate].
+        destruct (s_wq s) as [|[f data] wq']; [rewrite Hwc in Hw; discriminate|].
+        destruct (get_writer T (s_fs s) f) as [[? ?]|]; discriminate.
+    + exfalso. eapply inv_not_fail; [right; exact HI | exact Hph].
+  - (* a wound is waiting for room in the channel *)
+    exfalso. destruct (Nat.ltb (length (s_chan s)) cap) eqn:Hlt; [discriminate|].
+    apply Nat.ltb_ge in Hlt.
+    destruct (s_chan s) as [|w' ch] eqn:Hch; [cbn in Hlt; lia|].
+    destruct (s_h s) eqn:Ehh.
+    + eapply (hstep_run_some s w' ch); eassumption.
+    + destruct C4 as [X _]. discriminate (C3 (C1 X)).
+    + destruct C4 as [_ [X _]]. discriminate (C3 (C1 X)).
 Qed.
 
 End Proofs.
